@@ -46,8 +46,12 @@ func (C05) Gen(rng *core.Rng, tier string, idx int) *core.Scenario {
 	if rng.Chance(0.2) {
 		// periods whose duration is a multiple of the segment duration (others are rejected: C06)
 		var ok []int
+		ref := a.Ref()
+		refSegMS := int64(float64(ref.TotalDur())*1000/float64(ref.Timescale*uint64(len(ref.Segs))) + 0.5)
 		for _, n := range []int{1, 2, 3, 4, 5, 6, 10, 12, 15, 20, 30, 60, 120} {
-			if (3600_000/int64(n))%a.SegDurMS == 0 && a.ConstSegDur {
+			// the period must be a multiple of the reference (video) segment duration (C06), and of the
+			// shortest average over all representations (what the server required before the C06 fix)
+			if (3600_000/int64(n))%refSegMS == 0 && (3600_000/int64(n))%a.SegDurMS == 0 && a.ConstSegDur {
 				ok = append(ok, n)
 			}
 		}
